@@ -431,7 +431,7 @@ def _execute_cross(cfg, ctx):
                 want3 = fock_estimator(cfg, s, pd_a, wd)
                 if want3 is not None:
                     # the hand-coded CISD energy contracts one term in single precision on purpose
-                    if not _eq(e_a, want3, 2e-6 if cfg["trial"] == "cisd" else 1e-8):
+                    if not _eq(e_a, want3, 2e-6 if cfg["trial"] in ("cisd", "ucisd") else 1e-8):
                         _bad(ctx, "sampler.energy_is_not_weighted_capped_mean_of_true_local_energies", site_a, cfg, energy=_num(e_a), independent=want3, library_definition=want2)
                     ctx.probe("independent_estimator_checked", 1)
             ctx.probe("estimator_identity_checked", 1)
